@@ -89,6 +89,7 @@ def run(F, R):
     # P7 driver-level token tables: the unshare at completion receives the buffer that was shared under that token only
     # if a driver that looks buffers up by token stores each buffer under the token returned by the add that submitted
     # it (shared with C16.S4; the buffered network driver is the only such table outside the queue module)
+    p8_release_after_completion(F, R, M)
     from .C16 import s4_custody
     from . import C05 as _c5
     s4_custody(F, R, M, _c5.classify_api(_c5.queue_api(F, M)), rule='P7', only=('receive', 'recycle_rx_buffer'))
@@ -253,3 +254,41 @@ def p4_unshare(F, R, M, sg, pop_id):
         after = sg.reach_fwd(sg.nodes[o.id].succ)
         late = [n for n in hal_calls(sg, 'unshare') if n.id in after]
         R.check(not late, 'P6', '%s:unshare-before-ok' % pop_id, site(sg, o), 'all unshares precede the Ok return', 'an unshare happens after the Ok value is produced')
+
+
+def p8_release_after_completion(F, R, M):
+    """P8: a driver-owned buffer parked in driver state while it is shared with the device leaves that state only after
+    the completion was consumed: where pop_used can refuse (token supplied by the caller, not read from the used ring),
+    its buffer operands must not have been moved out of `self` (remove/take/pop/replace) beforehand - on the refusal
+    path the moved-out buffer would be dropped while still shared and never unshared."""
+    from . import C05
+    roles = C05.classify_api(C05.queue_api(F, M))
+    pops = set(k for k, v in roles.items() if v == 'pop_used')
+    peeks = set(k for k, v in roles.items() if v == 'peek_used')
+    CONSUME = ('::remove', '::take', '::pop', '::swap_remove', '::pop_first', '::pop_last', '::remove_entry')
+    n = 0
+    for b in F.bodies.values():
+        if not F.handwritten(b) or b.get('impl_adt') == M.queue_adt:
+            continue
+        if not any(bl['term']['k'] == 'call' and bl['term'].get('fn') in pops for bl in b['blocks']):
+            continue
+        sg = supergraph(F, b['id'], tag='flat', max_depth=0)
+        S = sg.sym
+        for c in sg.calls(lambda d: d.get('fn') in pops):
+            tok = S.operand(c.id, c.d['args'][1])
+            if derives_from(tok, lambda x: x[0] == 'call' and x[2] in peeks):
+                continue     # head of the used ring: the pop cannot refuse
+            n += 1
+            bad = None
+            for ai in (2, 3):
+                t = S.operand(c.id, c.d['args'][ai])
+                for e in [t] + (array_elems(S, t) or []):
+                    for x in deep_subterms(S, e, depth=6):
+                        if x[0] == 'call' and (x[2].endswith(CONSUME) or x[2] in ('core::mem::take', 'core::mem::replace')) and x[3] and \
+                                derives_from(x[3][0], lambda y: y == ('param', 1)) and x[1] in sg.reach_bwd([c.id]):
+                            bad = '%s (line %s)' % (x[2].rsplit('::', 2)[-2] + '::' + x[2].rsplit('::', 1)[-1], sg.nodes[x[1]].line)
+            R.check(bad is None, 'P8', '%s:buffers-stay-parked-until-popped' % b['id'], site(sg, c),
+                    'buffers handed to a refusable pop_used are still owned by driver state',
+                    'a buffer handed to pop_used was moved out of driver state by %s before the pop; if the pop refuses (NotReady / WrongToken) the buffer '
+                    'is dropped while the device still holds its shared address and it is never unshared' % bad)
+    R.count('refusable_pop_sites', n)
